@@ -182,14 +182,14 @@ class Emit:
             elif k == "while":
                 out.append(f"{pad}while {self.cond(s[1])} {{")
                 out += self.stmts(s[2], ind + 1)
-                out.append(f"{pad}}}")
+                out.append(f"{pad}}};")          # `;`: a following line that starts with `.{` would otherwise be parsed as `(while ..).{..}`
             elif k == "if":
                 out.append(f"{pad}if {self.cond(s[1])} {{")
                 out += self.stmts(s[2], ind + 1)
                 if s[3]:
                     out.append(f"{pad}}} else {{")
                     out += self.stmts(s[3], ind + 1)
-                out.append(f"{pad}}}")
+                out.append(f"{pad}}};")
             elif k == "trace":
                 v = self.ex(s[3])
                 if s[2] == "hex128":
@@ -367,11 +367,6 @@ def subst_stmts(ss, b):
     return out
 
 
-def rehome_type(t, frm, to):
-    """nothing to do: named types carry their home; kept for symmetry"""
-    return t
-
-
 def subst_func(f, binding, new_name, new_home):
     """binding: comptime parameter name -> ("T", closed type) | ("V", value, declared type).
     -> closed Func (comptime parameters removed) living in file new_home"""
@@ -384,12 +379,6 @@ def subst_func(f, binding, new_name, new_home):
              subst_stmts(f.body, binding), subst_expr(f.tail, binding) if f.tail is not None else None, f.height, dict(f.meta))
     g.meta["origin"] = (f.home, f.name)
     return g
-
-
-def fix_home(f, world):
-    """a function body moved to another file keeps meaning because every global reference carries its home; unqualified
-    references do not exist in this AST, so nothing has to be rewritten"""
-    return f
 
 
 # --------------------------------------------------------------------------- reference interpreter
